@@ -15,6 +15,7 @@ replay_case(d)   re-run a stored witness.
 
 Run stand-alone:  cd <harness root> && VERIF_REPO=<checkout> /venv/bin/python -m checks.kv_oracle
 """
+import os
 import json
 import math
 import random
@@ -81,6 +82,15 @@ def _shape_of(lst):
 
 
 def _c02_klass(case):
+    k = _c02_klass0(case)
+    if case.get("layout", "C") != "C":
+        k += " layout=" + {"T": "transposed-view", "F": "fortran", "S": "strided-slice"}[case["layout"]]
+    if case.get("repeat", 1) > 1:
+        k += " backward-x%d" % case["repeat"]
+    return k
+
+
+def _c02_klass0(case):
     op = case["op"]
     if op in ("softmax", "log_softmax"):
         return "dim=%d rank=%d" % (case["dim"], len(_shape_of(case["x"])))
@@ -105,6 +115,51 @@ def _c02_grad_inputs(case):
     return names
 
 
+LAYOUTS = ("C", "T", "F", "S")
+
+
+class _Grad:
+    def __init__(self, data):
+        self.data = data
+
+
+class _Leaf:
+    """an operand fed in a given memory layout; .grad is the leaf's gradient mapped back to the operand's logical shape"""
+
+    def __init__(self, leaf, back):
+        self.leaf, self.back = leaf, back
+
+    @property
+    def grad(self):
+        g = self.leaf.grad
+        return None if g is None else _Grad(self.back(g.data))
+
+
+def _laid_out(impl, a, layout, requires_grad):
+    """(operand Tensor, _Leaf) with the values of `a` (ndarray) but a non-C-contiguous memory layout:
+       C  as is;   F  Fortran order;   S  a strided slice big[::2] of a larger buffer;
+       T  a VIEW produced by the library itself: a leaf holding the transposed data, then .transpose(0, last)
+          (how a (classes, batch) score matrix reaches a loss).  The gradient is read on the leaf."""
+    np, sg = impl.np, impl.synapgrad
+    ident = lambda g: np.asarray(g)
+    if layout == "C" or a.ndim < 2:
+        t = sg.Tensor(a.copy(), requires_grad=requires_grad)
+        return t, _Leaf(t, ident)
+    if layout == "F":
+        t = sg.Tensor(np.asfortranarray(a), requires_grad=requires_grad)
+        return t, _Leaf(t, ident)
+    if layout == "S":
+        big = np.full((2 * a.shape[0],) + a.shape[1:], 7.75, dtype=a.dtype)
+        big[::2] = a
+        t = sg.Tensor(big[::2], requires_grad=requires_grad)
+        return t, _Leaf(t, ident)
+    if layout == "T":
+        leaf = sg.Tensor(np.ascontiguousarray(np.swapaxes(a, 0, a.ndim - 1)), requires_grad=requires_grad)
+        view = leaf.transpose(0, a.ndim - 1)
+        return view, _Leaf(leaf, lambda g: np.swapaxes(np.asarray(g), 0, a.ndim - 1))
+    raise ValueError(layout)
+
+
 def _c02_forward(impl, case, arrs, requires_grad):
     """One forward evaluation on the implementation with FRESH tensors (batch_norm replaces the running
     statistics' .data in training mode).  Returns (out Tensor, {name: Tensor})."""
@@ -114,8 +169,8 @@ def _c02_forward(impl, case, arrs, requires_grad):
         return sg.Tensor(np.array(a, dtype=np.float64), requires_grad=rg)
 
     op = case["op"]
-    x = T(arrs["x"], requires_grad)
-    ins = {"x": x}
+    x, xleaf = _laid_out(impl, np.array(arrs["x"], dtype=np.float64), case.get("layout", "C"), requires_grad)
+    ins = {"x": xleaf}
     if op == "softmax":
         out = NF.softmax(x, case["dim"])
     elif op == "log_softmax":
@@ -277,9 +332,23 @@ def _c02_judge(impl, case):
     res["expected"] = expected
     res["expected_fd"] = {n: fg[n].tolist() for n in names} if fg is not None else None
     # ---- backward on the implementation
+    rep = int(case.get("repeat", 1))
+    if rep > 1:
+        # the same graph back-propagated rep times: every leaf accumulates rep x the single-pass gradient
+        notes.append("backward called %d times on the same graph: expected = %d x the single-pass gradient" % (rep, rep))
+        if tg is not None:
+            tg = {n: rep * v for n, v in tg.items()}
+        if fg is not None:
+            fg = {n: rep * v for n, v in fg.items()}
+        expected = {n: (tg if tg is not None else fg)[n].tolist() for n in names} if (tg is not None or fg is not None) else None
+        res["expected"] = expected
+        res["expected_fd"] = {n: fg[n].tolist() for n in names} if fg is not None else None
     try:
         with np.errstate(all="ignore"):
-            out.backward(impl.synapgrad.Tensor(g.copy()))
+            for _k in range(rep):
+                gl = case.get("layout", "C")
+                gg = np.asfortranarray(g) if (gl != "C" and g.ndim >= 2) else g.copy()     # the upstream gradient need not be C-contiguous either
+                out.backward(impl.synapgrad.Tensor(gg))
     except Exception as e:
         res.update(status="witness", observed="backward raised " + _short(e),
                    note="; ".join(notes + ["forward accepted the input, backward raised"]))
@@ -547,8 +616,18 @@ def oracle_c02(ctx):
     _torch()
     t0 = time.time()
     rng = ctx.rng
-    cases = _c02_softmax_cases(rng, ctx.quick) + _c02_loss_cases(rng, ctx.quick) + _c02_bn_cases(rng, ctx.quick) \
-        + _c02_bn_seq_cases(rng, ctx.quick)
+    base = _c02_softmax_cases(rng, ctx.quick) + _c02_loss_cases(rng, ctx.quick) + _c02_bn_cases(rng, ctx.quick)
+    variants = []
+    for i, c in enumerate(base):
+        rank = len(_shape_of(c["x"]))
+        heavy = c["op"] == "batch_norm"
+        # non-C-contiguous operands (transposed views made by the library, Fortran order, strided slices)
+        if rank >= 2 and _shape_of(c["x"])[0] >= 2 and (not heavy or i % 3 == 0):
+            variants.append(dict(c, layout=LAYOUTS[1 + i % 3]))
+        # the same graph back-propagated twice / three times
+        if not heavy or i % 4 == 0:
+            variants.append(dict(c, repeat=2 + (i % 2), **({"layout": "T"} if (rank >= 2 and i % 5 == 0) else {})))
+    cases = base + variants + _c02_bn_seq_cases(rng, ctx.quick)
     by_site = {}
     failing = {}
     n_wit = n_rej = n_refdis = n_fwd = 0
@@ -660,6 +739,14 @@ def _spread_kind(rows):
 
 
 def _c09_judge(impl, case):
+    fails, info = _c09_judge0(impl, case)
+    if case.get("layout", "C") != "C":
+        for f in fails:
+            f["klass"] += " layout=" + {"T": "transposed-view", "F": "fortran", "S": "strided-slice"}[case["layout"]]
+    return fails, info
+
+
+def _c09_judge0(impl, case):
     """case: {"op": softmax|log_softmax|cross_entropy, "dtype", "x" (matrix as fed, exact floats), "g", ...}
     Returns list of failures [{site, klass, expected, observed, note}], plus counters (checks, rejected)."""
     np, sg, NF, nn = impl.np, impl.synapgrad, impl.NF, impl.nn
@@ -734,8 +821,8 @@ def _c09_judge(impl, case):
             return "%s %s dim=%d" % (dtype, sk, dim)
         try:
             with np.errstate(all="ignore"):
-                x = sg.Tensor(x_np.copy(), requires_grad=True)
-                out = (NF.softmax if op == "softmax" else NF.log_softmax)(x, dim)
+                xv, x = _laid_out(impl, x_np, case.get("layout", "C"), True)
+                out = (NF.softmax if op == "softmax" else NF.log_softmax)(xv, dim)
                 out_l = np.asarray(out.data, dtype=np.float64).tolist()
         except Exception as e:
             info["rejected"] += 1
@@ -793,9 +880,9 @@ def _c09_judge(impl, case):
         return "%s %s label=%s" % (dtype, _spread_kind([xl[r]]), _label_kind(xl[r], labels[r], dtype))
     try:
         with np.errstate(all="ignore"):
-            x = sg.Tensor(x_np.copy(), requires_grad=True)
+            xv, x = _laid_out(impl, x_np, case.get("layout", "C"), True)
             y = sg.Tensor(np.array(labels, dtype=np.int64))
-            out = nn.CrossEntropyLoss(reduction=red)(x, y) if form == "module" else NF.cross_entropy(x, y)
+            out = nn.CrossEntropyLoss(reduction=red)(xv, y) if form == "module" else NF.cross_entropy(xv, y)
             out_a = np.asarray(out.data, dtype=np.float64)
             if eff == "none" and out_a.size == N:
                 out_a = out_a.reshape(N, 1)      # per-row losses: (N,) or (N,1) -- the layout is C06's business, the values are judged here
@@ -841,16 +928,24 @@ def _g_like(rng, shape):
 def _c09_cases(rng, quick):
     cases = []
 
+    toggle = [0]
+
+    def dtypes():
+        # both call orders occur within one process: float32 then float64, and float64 then float32 (state cached on the
+        # first call -- per dtype kind, say -- must not leak from one precision into the other)
+        toggle[0] ^= 1
+        return ("float32", "float64") if toggle[0] else ("float64", "float32")
+
     def add_softmax(rows):
         R, K = len(rows), len(rows[0])
-        for dtype in ("float32", "float64"):
+        for dtype in dtypes():
             for op in ("softmax", "log_softmax"):
                 cases.append({"op": op, "dtype": dtype, "dim": -1, "x": rows, "g": _g_like(rng, (R, K))})
                 cases.append({"op": op, "dtype": dtype, "dim": 0, "x": _transpose(rows), "g": _g_like(rng, (K, R))})
 
     def add_ce(rows, labels):
         N = len(rows)
-        for dtype in ("float32", "float64"):
+        for dtype in dtypes():
             for form, red in (("module", "mean"), ("module", "sum"), ("module", "none"), ("functional", None)):
                 if form == "module" and red in ("mean", "sum"):
                     g = rng.choice([-1, 1]) * rng.uniform(0.5, 1.5)
@@ -903,6 +998,14 @@ def _c09_cases(rng, quick):
             add_ce([row], [lab])
     for c in cases[n_fixed:]:
         c["band"] = True
+    # non-C-contiguous logits (transposed views produced by the library, Fortran order, strided slices), >= 2 rows
+    multi = [[1000.0, 0.0, -1000.0], [3.0, -2.0, 0.5], [-1e4, -1e4, -1e4], [88.0, 87.5, -50.0]]
+    n0 = len(cases)
+    add_softmax(multi)
+    add_ce(multi, [2, 0, 1, 2])
+    add_ce(multi[:2], [0, 1])
+    for i, c in enumerate(cases[n0:]):
+        c["layout"] = LAYOUTS[1 + i % 3]
     for c in cases:
         c["fixed"] = True
     for _ in range(150 if quick else 1500):
@@ -919,12 +1022,17 @@ def _c09_cases(rng, quick):
                 j = rng.randrange(K)
                 row = [row[j] - rng.choice([0.0, 1e-3, 0.5]) if rng.random() < 0.5 else v for v in row]   # near ties
             rows.append(row)
+        n1 = len(cases)
         add_softmax(rows)
         labels = []
         for row in rows:
             u = rng.random()
             labels.append(row.index(min(row)) if u < 0.4 else (row.index(max(row)) if u < 0.55 else rng.randrange(K)))
         add_ce(rows, labels)
+        if R >= 2 and rng.random() < 0.5:
+            lay = rng.choice(LAYOUTS[1:])
+            for c in cases[n1:]:
+                c["layout"] = lay
     return cases
 
 
@@ -976,12 +1084,67 @@ def oracle_c09(ctx):
                 chosen.append(t)
         for _key, f, case in chosen:
             ctx.witness(site, f["klass"], _c09_input(case, impl), f["expected"], f["observed"], note=f["note"])
-    out = {"cases": len(cases), "scalar_checks": n_checks, "by_site": by_site, "witnesses": n_wit,
-           "rejected": n_rej, "seconds": round(time.time() - t0, 2)}
+    pn, pw = c09_order_probe(ctx)
+    n_wit += pw
+    out = {"cases": len(cases) + pn, "scalar_checks": n_checks, "by_site": by_site, "witnesses": n_wit,
+           "rejected": n_rej, "order_probe_cases": pn, "seconds": round(time.time() - t0, 2)}
     ctx.extra["oracle_c09_vector"] = out
     ctx.log("oracle_c09: %d cases, %d scalar checks, %d witnesses, %d rejected, %.1fs" % (
         len(cases), n_checks, n_wit, n_rej, time.time() - t0))
     return out
+
+
+# ------------------------------------------------------------------ first-call order of the dtypes, in FRESH processes
+def _order_probe_cases(first):
+    second = "float32" if first == "float64" else "float64"
+    rows = [[1000.0, 0.0, -1000.0], [88.8, 0.0, -3.0], [745.5, 0.0, -745.5], [3.0, -2.0, 0.5]]
+    rng = random.Random(7)
+    cases = []
+    for dim, x in ((-1, rows), (0, _transpose(rows))):
+        for op in ("softmax", "log_softmax"):
+            g = _g_like(rng, (len(x), len(x[0])))
+            for dt in (first, second):
+                cases.append({"op": op, "dtype": dt, "dim": dim, "x": x, "g": g})
+    for form, red in (("module", "mean"), ("module", "none"), ("functional", None)):
+        g = 0.8 if red == "mean" else _g_like(rng, (len(rows), 1))
+        for dt in (first, second):
+            cases.append({"op": "cross_entropy", "dtype": dt, "form": form, "reduction": red, "x": rows, "labels": [2, 0, 2, 1], "g": g})
+    return cases
+
+
+def _order_probe_child(first):
+    """runs in a fresh interpreter: the FIRST call of every op in this process has dtype `first`"""
+    impl = _impl()
+    out = []
+    for case in _order_probe_cases(first):
+        fails, _info = _c09_judge(impl, case)
+        for f in fails:
+            out.append({"site": f["site"], "klass": f["klass"] + " first-call-dtype=" + first, "input": _c09_input(case, impl),
+                        "expected": f["expected"], "observed": f["observed"], "note": f["note"]})
+    print("ORDER-PROBE-RESULT " + json.dumps(out, default=str))
+
+
+def c09_order_probe(ctx):
+    """state cached on the first call (e.g. per dtype *kind*) can only be exposed by a process whose first call has the
+    other precision: two fresh interpreters, float64-first and float32-first"""
+    import subprocess
+    root = os.path.dirname(os.path.dirname(os.path.abspath(__file__)))
+    n = 0
+    wit = 0
+    for first in ("float64", "float32"):
+        p = subprocess.run([sys.executable, "-m", "checks.kv_oracle", "--order-probe", first], cwd=root, env=dict(os.environ),
+                           stdout=subprocess.PIPE, stderr=subprocess.STDOUT, text=True, timeout=600)
+        line = [l for l in p.stdout.splitlines() if l.startswith("ORDER-PROBE-RESULT ")]
+        n += len(_order_probe_cases(first))
+        if not line:
+            ctx.witness("kv_oracle/order-probe", "probe process failed first-call-dtype=" + first, {"oracle": "c09-order", "first": first},
+                        "the probe process reports its verdicts", p.stdout[-600:])
+            wit += 1
+            continue
+        for f in json.loads(line[0][len("ORDER-PROBE-RESULT "):])[:3]:
+            wit += 1
+            ctx.witness(f["site"], f["klass"], dict(f["input"], first_call_dtype=first), f["expected"], f["observed"], note=f["note"])
+    return n, wit
 
 
 # =====================================================================================================
@@ -1005,7 +1168,10 @@ def replay_case(data):
         print("status   :", r["status"], "-", r.get("note", ""))
         return 1 if r["status"] == "witness" else 0
     if which == "c09":
-        case = {k: v for k, v in inp.items() if k != "oracle"}
+        case = {k: v for k, v in inp.items() if k not in ("oracle", "first_call_dtype")}
+        if inp.get("first_call_dtype") and inp["first_call_dtype"] != case["dtype"]:
+            # order witness: in THIS fresh process make the first call of the op with the other precision, as the probe did
+            _c09_judge(impl, dict(case, dtype=inp["first_call_dtype"]))
         fails, info = _c09_judge(impl, case)
         print("input    :", json.dumps(case)[:2000])
         print("stored expected (mpmath) :", json.dumps(data.get("expected"), default=str)[:1500])
@@ -1049,6 +1215,9 @@ if __name__ == "__main__":
         def log(self, *a):
             print("[oracle %6.1fs]" % (time.time() - self.t0), *a, file=sys.stderr, flush=True)
 
+    if "--order-probe" in sys.argv:
+        _order_probe_child(sys.argv[sys.argv.index("--order-probe") + 1])
+        sys.exit(0)
     quick = "--thorough" not in sys.argv
     fake = _FakeCtx(quick=quick)
     r2 = oracle_c02(fake)
